@@ -1,7 +1,9 @@
 package cli
 
 import (
+	"bytes"
 	"context"
+	"encoding/json"
 	"io"
 	"net/http"
 
@@ -21,8 +23,12 @@ func Verify(ctx context.Context, in io.Reader, key *dsig.PublicKey) error {
 		return wrapError(StatusBadRequest, err)
 	}
 	env := new(gobl.Envelope)
-	if err := jsonyaml.Unmarshal(body, env); err != nil {
-		return wrapError(StatusBadRequest, err)
+	// JSON first: not every JSON text is something the YAML route accepts
+	if t := bytes.TrimSpace(body); len(t) == 0 || t[0] != '{' || json.Unmarshal(body, env) != nil {
+		env = new(gobl.Envelope)
+		if err := jsonyaml.Unmarshal(body, env); err != nil {
+			return wrapError(StatusBadRequest, err)
+		}
 	}
 	if err := env.Validate(); err != nil {
 		return wrapError(StatusUnprocessableEntity, err)
